@@ -177,10 +177,21 @@ func (n *addDefaults) yangDataChildren(
 				continue
 			}
 		}
-		new_children = append(new_children, createDefault(def))
+		if dn := createDefault(def); dn != nil {
+			new_children = append(new_children, dn)
+		}
 	}
 
 	return new_children
+}
+
+func isUnderChoice(sch Node, name string) bool {
+	for _, chs := range sch.Choices() {
+		if chs.Child(name) != nil {
+			return true
+		}
+	}
+	return false
 }
 
 // Potentially the schema could store the defaults as a DataNode interface
@@ -195,9 +206,22 @@ func createDefault(sch Node) datanode.DataNode {
 		return datanode.CreateDataNode(v.Name(), nil, []string{val})
 	}
 
+	// Nothing is configured below a node we are creating, so under a
+	// choice only the nodes of the default case are active defaults.
 	var children []datanode.DataNode
 	for _, ch := range sch.DefaultChildren() {
-		children = append(children, createDefault(ch))
+		if isUnderChoice(sch, ch.Name()) &&
+			!IsActiveDefault(sch, ch.Name(),
+				func(Node) bool { return false }) {
+			continue
+		}
+		if dn := createDefault(ch); dn != nil {
+			children = append(children, dn)
+		}
+	}
+	if len(children) == 0 {
+		// No active default below: the node itself is not a default
+		return nil
 	}
 
 	return datanode.CreateDataNode(sch.Name(), children, nil)
